@@ -140,6 +140,10 @@ class AsyncWorld:
             elif cfg.get('typed') and kind in ('coro', 'bcoro') and rng.random() < 0.3:
                 out = 'invalid'
             d['out'] = out
+            if out == 'value' and kind in ('coro', 'bcoro') and rng.random() < 0.08:
+                d['self_plain'] = True
+            if out == 'value' and kind in ('agen', 'bagen') and d['items'] > 1 and rng.random() < 0.12:
+                d['plain_on_first'] = True
             d['sleep'] = rng.choice([0.5, 5, 60]) if ('sleep' in cfg['faults'] and rng.random() < 0.25) else 0
         return d
 
@@ -321,6 +325,10 @@ class _Run:
                         raise RuntimeError('injected awaitable failure')
                     if outcome == 'skip':
                         raise Skip()
+                    if spec.get('self_plain') and not ev.n:
+                        # the awaitable's own code overrides the parameter after its last suspension: its result is superseded
+                        run.out.stats['probe.plain_assignment_by_the_awaitable_itself'] += 1
+                        run.do_assign({'t': spec['t'], 'p': spec['p'], 'kind': 'plain', 'id': 9000 + aid})
                     if outcome == 'invalid' and run.cfg.get('typed'):
                         ev.ended = 'ok'
                         run.log(f"DONE a{aid} x={x} -> a value the parameter rejects")
@@ -457,6 +465,10 @@ class _Run:
         latest = hist[-1]
         if self.attributable(latest, value):
             self.applied[latest['id']] = self.applied.get(latest['id'], 0) + 1
+            if latest.get('plain_on_first') and self.applied[latest['id']] == 1:
+                # a watcher of the parameter overrides it while the generator's item is being applied
+                self.out.stats['probe.plain_assignment_from_watcher_while_item_applied'] += 1
+                self.do_assign({'t': t, 'p': PNAMES.index(pn), 'kind': 'plain', 'id': 9500 + latest['id']})
             return
         owner = None
         for spec in reversed(hist[:-1]):
